@@ -63,7 +63,8 @@ def gen_chain(rng, backend="pandas"):
                          "title": rng.choice([None, None, f"t{k}"]), "description": rng.choice([None, None, f"d{k}"]),
                          "metadata": rng.choice([None, None, {"k": k}]),
                          "own": rng.sample(FIELD_OWN[dt], rng.choice([0, 0, 1])) if dt in FIELD_OWN else [],
-                         "alias": (f"{attr}_x" if rng.random() < 0.08 else None)}
+                         # an alias; now and then the empty string, a legal column label that is falsy
+                         "alias": (lambda r: f"{attr}_x" if r < 0.08 else "" if (r < 0.11 and attr == "a") else None)(rng.random())}
             cls["fields"].append({"attr": attr, "ann": ann, "field": field})
         have = sorted(annotated)
         if have:
@@ -192,7 +193,7 @@ def canon_field(f):
     out = [["nullable", repr(bool(f["nullable"]))], ["unique", repr(bool(f["unique"]))], ["coerce", repr(bool(f["coerce"]))],
            ["title", repr(f["title"])], ["description", repr(f["description"])], ["metadata", repr(f["metadata"])],
            ["own", ";".join(f["own"])]]
-    if f.get("alias"):
+    if f.get("alias") is not None:
         out.append(["alias", f["alias"]])
     return out
 
@@ -337,7 +338,8 @@ def object_api_schema(case, spec, pol, target=None):
     for cls in case["chain"]:
         for f in cls["fields"]:
             if f["field"] is not None or f["ann"] is not None:
-                own_by_col[(f["field"] or {}).get("alias") or f["attr"]] = (f["field"] or {}).get("own", [])
+                al = (f["field"] or {}).get("alias")
+                own_by_col[al if al is not None else f["attr"]] = (f["field"] or {}).get("own", [])
 
     def mk_check(payload, df_level=False):
         m = by_payload[payload]
